@@ -180,6 +180,17 @@ func c31Gen(seed uint64, idx, total int, tier string) any {
 			es = append(es, ent{k + dr.Intn(c.Window+3), k})
 		}
 	}
+	if dr.Bool(0.2) {
+		// stale duplicates: a few packets arrive once more long after their frame (far outside the
+		// reorder window and max_late)
+		if dr.Bool(0.5) {
+			c.MaxLate = uint16(dr.Range(1, 4)) // (a small window is drained by frames as long as itself)
+		}
+		for m := dr.Range(1, 3); m > 0 && n > 0; m-- {
+			k := dr.Intn(n)
+			es = append(es, ent{k + int(c.MaxLate) + dr.Range(9, 40), k})
+		}
+	}
 	sort.SliceStable(es, func(i, j int) bool { return es[i].key < es[j].key })
 	popMode := dr.Intn(10)
 	for _, e := range es {
@@ -576,7 +587,7 @@ func c31RunOnce(t *testing.T, cj []byte, res *vfResult) {
 func init() {
 	vfRegister(&vfProp{
 		ID: "C31", Level: "exploration", ReplayClass: "exact",
-		Rule: "case = 1-12 frames {1-4 (15% of cases: 1-12) packets, 9-40 payload bytes; in 60% of the cases 15% of the frames have no tail flag and the partition-head flag is on the first / every (20%) / every second (10%) packet, in 40% every frame is tail-flagged with one head}, start sequence number (60% within the stream's length of 65535), start timestamp (40% within the stream's length of 2^32), timestamp step from {1, 90, 960, 3000, 90000, 2^28}, max_late 1-60, WithMaxTimeDelay unset (70%) or 1-500 ms; link derived from delivery_seed: loss 0/5/20%, duplication 0/10/25%, reorder window 0-12 packets; Pop never / until nil after every Push / 1-3 times after 40% of the Pushes; final Flush and Pop until nil; non-trivial = >=3 packets and >=2 samples emitted, distinct = hash of (frame shapes, max_late, max-time-delay used, wraps, delivery order with pops)",
+		Rule: "case = 1-12 frames {1-4 (15% of cases: 1-12) packets, 9-40 payload bytes; in 60% of the cases 15% of the frames have no tail flag and the partition-head flag is on the first / every (20%) / every second (10%) packet, in 40% every frame is tail-flagged with one head}, start sequence number (60% within the stream's length of 65535), start timestamp (40% within the stream's length of 2^32), timestamp step from {1, 90, 960, 3000, 90000, 2^28}, max_late 1-60, WithMaxTimeDelay unset (70%) or 1-500 ms; link derived from delivery_seed: loss 0/5/20%, duplication 0/10/25%, reorder window 0-12 packets, in 20% of the cases 1-3 stale duplicates max_late+9..40 packets behind (max_late 1-4 in half of those); Pop never / until nil after every Push / 1-3 times after 40% of the Pushes; final Flush and Pop until nil; non-trivial = >=3 packets and >=2 samples emitted, distinct = hash of (frame shapes, max_late, max-time-delay used, wraps, delivery order with pops)",
 		Real: []string{"pkg/media/samplebuilder (New, Push, Pop, Flush, WithMaxTimeDelay, WithPacketReleaseHandler)", "pkg/media.Sample", "pion/rtp Packet"},
 		Stub: []string{"the depacketizer is a harness codec (payload = frame id, index, head/tail flags, length, filler; Unmarshal returns the payload unchanged)", "the link is the simulated packet stream (pktsim)"},
 		Assumptions: []string{
